@@ -313,6 +313,33 @@ PROPS['C02'] = dict(
     trusted_base=['rustc', 'Verus 0.2026.09.13 / Z3', 'Kani 0.68.0 / CBMC 6.11.0'],
 )
 
+PROPS['C14'] = dict(
+    level='proof',
+    level_text=('PARTIAL: unbounded deductive proof (Verus/Z3, structural induction over the real Action type) of the TABLE-COMPLETENESS half of the property only: '
+                'add_key_output_from_action_to_key_pos records, for a key position, every OS key its action can put down, for every action tree '
+                '(plain key, output chord, multi, tap-hold incl. timeout action, tap-dance, one-shot, fork, switch, chords v1, unmod/unshift, use-defsrc). '
+                'The run-time half (handle_repeat_actual: "at most one repeat, only for a key that is currently down", layer lookup order, preference of '
+                'the last-listed key) is NOT decided: it is a Kanata method over hash maps and layout calls, outside both verifiers.'),
+    level_note=('Trusted: rustc, Verus+Z3, extractor (R7e: CustomAction is sliced to the two variants the function names plus one catch-all; HoldTapConfig, UnmodMods, Overrides '
+                'and the per-layer HashMap are opaque types). Assumed: add_kc_output inserts (position, key) and never removes (hash-map entry API + override lookup); '
+                'KeyCode->OsCode preserves the number (proved by Kani in C11). Not covered: add_chordsv2_output_for_key_pos, create_key_outputs, handle_repeat_actual.'),
+    technique='contract-based deductive verification (Verus: ensures over a recursive spec function can_output, decreases on the action tree, loop invariants over ghost iterators)',
+    design_ref='DESIGN.md section 4 C14 and section 9.1b',
+    explanation=('Contract on the real text of parser/src/cfg/key_outputs.rs::add_key_output_from_action_to_key_pos: for all k, can_output(action, slot, k) ==> the table has (slot, k) '
+                 'afterwards, and the table only grows; can_output is written from the list of key-producing forms in the property statement; termination by structural '
+                 'decrease through references and slices; seven for-loops with invariants.'),
+    verus=[dict(unit='keyout')],
+    kani=[],
+    assumptions=[
+        'NOT decided: Kanata::handle_repeat_actual (emits at most one repeat, only for a key that is down; layer order; prefers the last-listed key), the hardware repeat gate and sequence-mode suppression',
+        'NOT covered: add_chordsv2_output_for_key_pos (reads an FxHashMap), create_key_outputs (the per-layer driver loop), override outputs added inside add_kc_output',
+        'add_kc_output is an assumed callee (external_body): inserts (position, key), never removes',
+        'KeyCode -> OsCode (a transmute) is assumed to preserve the number here; that is proved for every code by the Kani harnesses of C11',
+        'CustomAction is represented by the two variants the function names (Unmodded, Unshifted) plus one catch-all variant (rewrite R7e); all other variants are treated uniformly by the function (`_ => {}`)',
+    ],
+    trusted_base=['rustc', 'Verus 0.2026.09.13 / Z3', 'extractor lib/rustcut.py + lib/verusgen.py (rewrites logged in rewrites_applied)'],
+)
+
 
 def find_harness(name):
     for p in PROPS.values():
